@@ -83,18 +83,17 @@ func (c *Ctx) byteLenSplit(x *Term, max int, pos token.Pos) int {
 func beBytes(x *Term, n int) []value {
 	r := make([]value, n)
 	for i := 0; i < n; i++ {
-		r[i] = Mod(Div(x, CInt(Pow2(8*(n-1-i)))), CI(256))
+		r[i] = ExtractByte(x, n-1-i)
 	}
 	return r
 }
 
 func fromBE(b []value) *Term {
-	var r *Term = CI(0)
-	n := len(b)
-	for i := 0; i < n; i++ {
-		r = Add(r, Mul(asTerm(b[i]), CInt(Pow2(8*(n-1-i)))))
+	ms := make([]*Term, len(b))
+	for i := range b {
+		ms[i] = asTerm(b[i])
 	}
-	return r
+	return Recombine(ms)
 }
 
 // pow2Sym returns 2^n for a symbolic n with a small known range (ite chain), or nil.
